@@ -4,8 +4,6 @@
     list of archive descriptions whose fields are values of their Go types. *)
 From WT Require Import Base.Wrap Base.ListX Model.Time Model.Ring Model.Update Model.Codec Gen.GoKernel Tie.TieBase.
 
-Definition tup (a : ainfo) : Z * Z * Z := (ai_off a, ai_step a, ai_n a).
-Definition typed (a : ainfo) : Prop := is_u32 (ai_off a) /\ is_i32 (ai_step a) /\ is_u32 (ai_n a).
 
 Ltac abs_quot_rem :=
   repeat match goal with
@@ -18,9 +16,6 @@ Ltac abs_quot_rem :=
     assert (H : b <> 0) by lia; apply (quot_abs_le a) in H;
     let q := fresh "q" in set (q := Z.quot a b) in *; clearbody q
   end.
-
-Lemma u64_small x : 0 <= x < 2^64 -> u64 x = x.
-Proof. intros. unfold u64. lia. Qed.
 
 Lemma validate1 o s n : go_ArchiveInfo_validate o s n = (0 <? s) && (0 <? n).
 Proof. unfold go_ArchiveInfo_validate. tie_cases; lia. Qed.
